@@ -330,7 +330,30 @@ def run_check(mod, tier: str, base_seed: int, budget_s: Optional[float], workers
     agg = {"n": 0, "stats": {}, "sigs": set(), "nontrivial_sigs": set(), "viol": [], "samples": [],
            "simtime": 0.0, "discarded": {}, "obs": {}, "harness": []}
 
+    findings_for_cap = load_known_findings(prop)
+    unknown_viol = [0]          # violations no known finding covers (the time-boxed search stops early only for those)
+
+    known_only: Dict[str, dict] = {}      # cases whose violations are all covered by known findings: counted, not stored
+
     def merge(o):
+        keep = []
+        for item_ in o["viol"]:
+            unknown_here = 0
+            hits = []
+            for v_ in item_["violations"]:
+                f_ = match_finding(Violation(v_["cls"], v_["detail"], v_.get("key", {})), findings_for_cap)
+                if f_ is None:
+                    unknown_here += 1
+                else:
+                    hits.append((f_, v_))
+            unknown_viol[0] += unknown_here
+            if unknown_here:
+                keep.append(item_)
+            else:
+                for f_, v_ in hits:
+                    e_ = known_only.setdefault(f_["id"], {"finding": f_, "count": 0, "example": v_["detail"]})
+                    e_["count"] += 1
+        o = dict(o, viol=keep)
         agg["n"] += o["n"]
         for k, v in o["stats"].items():
             agg["stats"][k] = agg["stats"].get(k, 0) + v
@@ -373,7 +396,7 @@ def run_check(mod, tier: str, base_seed: int, budget_s: Optional[float], workers
                     merge(f.result())
             # time-boxed seeded extras (thorough)
             if tier == "thorough" and budget_s:
-                while time.time() - t0 < budget_s and len(agg["viol"]) < 50:
+                while time.time() - t0 < budget_s and unknown_viol[0] < 50:
                     submit_upto(next_i + chunk * workers * 3)
                     done, _ = cf.wait(pending, timeout=wall_cap + 30, return_when=cf.FIRST_COMPLETED)
                     if not done:
@@ -410,7 +433,7 @@ def run_check(mod, tier: str, base_seed: int, budget_s: Optional[float], workers
     # ---- violations: group by class, shrink, confirm, match known findings
     findings = load_known_findings(prop)
     reported: List[dict] = []
-    known_hit: Dict[str, dict] = {}
+    known_hit: Dict[str, dict] = {k_: dict(v_) for k_, v_ in known_only.items()}
     by_cls: Dict[str, list] = {}
     for item in agg["viol"]:
         for v in item["violations"]:
